@@ -9,7 +9,7 @@
 (*   Postings    per key the documents holding it with frequency and positions                 *)
 (*   FieldNormId the 256-entry table of src/fieldnorm/code.rs                                  *)
 (*   the cursor machine: advance / seek over one posting list                                  *)
-EXTENDS Integers, Sequences, FiniteSets, TLC
+EXTENDS Integers, Sequences, FiniteSets, SequencesExt, TLC
 
 PositionGap == 1
 TERMINATED == 2147483647
@@ -49,8 +49,8 @@ PostingsOf(doctoks, k) ==
   IN [j \in 1..Len(ds) |-> [doc |-> ds[j] - 1, tf |-> Len(PositionsOf(doctoks[ds[j]], k)), pos |-> PositionsOf(doctoks[ds[j]], k)]]
 Terms(doctoks) == UNION {Keys(doctoks[d]) : d \in 1..Len(doctoks)}
 DocFreq(doctoks, k) == Len(PostingsOf(doctoks, k))
-RECURSIVE SumR(_, _)
-SumR(f, n) == IF n = 0 THEN 0 ELSE f[n] + SumR(f, n - 1)
+\* sum of a sequence of numbers (folded by TLC's Java implementation: linear, strict)
+SumR(f, n) == FoldLeft(LAMBDA x, y : x + y, 0, [i \in 1..n |-> f[i]])
 NumPairs(doctoks) == SumR([d \in 1..Len(doctoks) |-> Cardinality(Keys(doctoks[d]))], Len(doctoks))
 
 \* ---- byte order of the term dictionary
